@@ -200,4 +200,5 @@ func argsGuard(path string, rng *rand.Rand, reps int) {
 			o.Emit(l)
 		}
 	}
+	retainProbe(o, rng)
 }
